@@ -208,7 +208,7 @@ impl Broker {
             let next = &self.cfg.script[self.script_next];
             let clash = next.qos > 0 && self.b2c.iter().any(|m| m.msg.pid == next.pid);
             let qos2_inflight = self.b2c.iter().filter(|m| m.msg.qos == 2).count();
-            if !clash && qos2_inflight < 8 {
+            if !clash && (qos2_inflight < 8 || self.cfg.overrun) {
                 v.push(Emit::Script);
             }
         }
@@ -289,17 +289,48 @@ impl Broker {
                     Owed::SubAck { pid, n } => SPacket::SubAck {
                         pid,
                         props: vec![],
-                        codes: vec![if fail { 0x80 } else { 0x00 }; n.max(1)],
+                        codes: Self::per_filter_codes(variant, n, 0x87, 0x01),
                     },
                     Owed::UnsubAck { pid, n } => SPacket::UnsubAck {
                         pid,
                         props: vec![],
-                        codes: vec![if fail { 0x80 } else { 0x00 }; n.max(1)],
+                        codes: Self::per_filter_codes(variant, n, 0x87, 0x11),
                     },
                     Owed::PingResp => SPacket::PingResp,
                     Owed::Resend(pkt) => pkt,
                 }
             }
+        }
+    }
+
+    /// Reason codes of a SUBACK / UNSUBACK: 0 = all succeed, 1 = all fail (0x80), 3 = only the first
+    /// filter is refused (`first_fail`) and the others succeed with `other_ok`, 4 = only the last one is.
+    fn per_filter_codes(variant: u8, n: usize, first_fail: u8, other_ok: u8) -> Vec<u8> {
+        let n = n.max(1);
+        match variant {
+            1 => vec![0x80; n],
+            3 => {
+                let mut v = vec![other_ok; n];
+                v[0] = first_fail;
+                v
+            }
+            4 => {
+                let mut v = vec![0x00; n];
+                v[n - 1] = 0x80;
+                v
+            }
+            _ => vec![0x00; n],
+        }
+    }
+
+    /// Number of filters of an owed SUBACK / UNSUBACK (0 for anything else).
+    pub fn filters_of(&self, e: &Emit) -> usize {
+        match e {
+            Emit::Owed(i) => match self.owed[*i] {
+                Owed::SubAck { n, .. } | Owed::UnsubAck { n, .. } => n,
+                _ => 0,
+            },
+            _ => 0,
         }
     }
 
